@@ -37,7 +37,7 @@ Inductive fval :=           (* float results, symbolically *)
 | F32OfInt (z : Z)          (* float32 of an integer *)
 | F64OfInt (z : Z).
 
-Inductive tval := TIn (id : Z) | TOfSecs (z : Z) | TParsed (id : Z).
+Inductive tval := TIn (id : Z) | TOfSecs (z : Z) | TParsed (id : Z) | TOfFlt (id : Z) (* float64 epoch seconds *).
 
 Inductive cv :=
 | CNil
@@ -84,7 +84,7 @@ Definition scalar_in (k : skind) (v : cv) : cv * bool :=
       if f_finite f then (if f_w32 f then (CFl (F64Of f), false) else (CFl (FIn f), false)) else (CNil, true)
   | SFloat64, CI KInt32 z | SFloat64, CI KInt64 z => (CFl (F64OfInt z), false)
   | SFloat64, CStr s =>
-      match s_flt s with Some f => if f_finite f then (CFl (FIn f), false) else (CNil, true) | None => (CNil, true) end
+      match s_flt s with Some f => if f_finite f && negb (f_w32 f) then (CFl (FIn f), false) else (CNil, true) | None => (CNil, true) end
   (* String and custom (SDL-declared) scalars *)
   | SString, CStr s | SCustom, CStr s => (CStr s, false)
   | SBoolean, CBool b => (CBool b, false)
@@ -94,6 +94,7 @@ Definition scalar_in (k : skind) (v : cv) : cv * bool :=
   (* Time *)
   | STime, CTime t => (CTime t, false)
   | STime, CI KInt64 z => (CTime (TOfSecs z), false)
+  | STime, CFl (FIn f) => if f_w32 f then (CNil, true) else (CTime (TOfFlt (f_id f)), false)
   | STime, CStr s => match s_time s with Some t => (CTime (TParsed t), false) | None => (CNil, true) end
   | _, _ => (CNil, true)
   end.
@@ -131,6 +132,7 @@ Definition scalar_out (k : skind) (v : cv) : cv * bool :=
   | SID, CI _ z => (CStrOfInt z, false)
   | STime, CTime t => (CTimeText t, false)
   | STime, CI KInt64 z => (CTimeText (TOfSecs z), false)
+  | STime, CFl (FIn f) => if f_w32 f then (CNil, true) else (CTimeText (TOfFlt (f_id f)), false)
   | STime, CStr s => match s_time s with Some t => (CTimeText (TParsed t), false) | None => (CNil, true) end
   | _, _ => (CNil, true)
   end.
@@ -139,88 +141,96 @@ Definition scalar_out (k : skind) (v : cv) : cv * bool :=
 Inductive cty :=
 | TScalar (k : skind)
 | TEnum (vals : list nat)
-| TInput (fields : list ifield)
+| TInput (fields : list (nat * (cty * option cv)))     (* name, type, default *)
 | TListOf (t : cty)
-| TNonNullOf (t : cty)
-with ifield := mkIF (name : nat) (t : cty) (dflt : option cv).
+| TNonNullOf (t : cty).
 
-Definition if_name (f : ifield) := match f with mkIF n _ _ => n end.
-Definition if_type (f : ifield) := match f with mkIF _ t _ => t end.
-Definition if_dflt (f : ifield) := match f with mkIF _ _ d => d end.
+Definition if_name (f : nat * (cty * option cv)) : nat := fst f.
+Definition if_type (f : nat * (cty * option cv)) : cty := fst (snd f).
+Definition if_dflt (f : nat * (cty * option cv)) : option cv := snd (snd f).
 
 Fixpoint lookupc {A} (k : nat) (l : list (nat * A)) : option A :=
   match l with [] => None | (k', v) :: r => if Nat.eqb k k' then Some v else lookupc k r end.
 
+Definition is_cnil (v : cv) : bool := match v with CNil => true | _ => false end.
+
 Definition is_nn (t : cty) : bool := match t with TNonNullOf _ => true | _ => false end.
+
+Definition declared (fields : list (nat * (cty * option cv))) (k : nat) : bool :=
+  existsb (fun f => Nat.eqb (if_name f) k) fields.
+
+(* the element loop of List.CoerceIn and the field loop of Input.CoerceIn, over the coercion of the
+   element / field types *)
+Definition list_loop (ci : cv -> option cv) : list cv -> option (list cv) :=
+  fix go (l : list cv) : option (list cv) :=
+    match l with
+    | [] => Some []
+    | x :: r => match go r, ci x with
+                | Some r', Some x' => Some (x' :: r')
+                | _, _ => None
+                end
+    end.
+
+Definition input_loop (ci : cty -> cv -> option cv) (kvs : list (nat * cv))
+  : list (nat * (cty * option cv)) -> option (list (nat * cv)) :=
+  fix go (fs : list (nat * (cty * option cv))) : option (list (nat * cv)) :=
+    match fs with
+    | [] => Some []
+    | f :: r =>
+        match go r with
+        | None => None
+        | Some m =>
+            match lookupc (fst f) kvs with
+            | None =>
+                match snd (snd f) with
+                | Some d => Some ((fst f, d) :: m)
+                | None => if is_nn (fst (snd f)) then None else Some m
+                end
+            | Some ov =>
+                if is_cnil ov then
+                  match snd (snd f) with
+                  | Some d => Some ((fst f, d) :: m)
+                  | None => if is_nn (fst (snd f)) then None else Some ((fst f, CNil) :: m)
+                  end
+                else match ci (fst (snd f)) ov with
+                     | Some w => Some ((fst f, w) :: m)
+                     | None => None
+                     end
+            end
+        end
+    end.
 
 (* CoerceIn of any input type; None = error.  Lists are coerced element by element (the Go loop
    runs from the last element to the first and stops at the first failure: only whether an error
-   occurs is observable).  Input objects: unknown key is an error; every declared field is looked at:
-   absent or nil -> default when there is one, error when non-null, else left absent; present ->
-   coerced. *)
-Fixpoint coerce_in (fuel : nat) (t : cty) (v : cv) {struct fuel} : option cv :=
-  match fuel with
-  | O => None
-  | S fuel' =>
-      match t with
-      | TScalar k => let (w, bad) := scalar_in k v in if bad then None else Some w
-      | TEnum vals =>
-          match v with
-          | CNil => Some CNil
-          | CSym e => if existsb (Nat.eqb e) vals then Some (CSym e) else None
-          | _ => None
-          end
-      | TNonNullOf b => match v with CNil => None | _ => coerce_in fuel' b v end
-      | TListOf b =>
-          match v with
-          | CNil => Some CNil
-          | CList l =>
-              (fix go (l : list cv) : option (list cv) :=
-                 match l with
-                 | [] => Some []
-                 | x :: r => match go r, coerce_in fuel' b x with
-                             | Some r', Some x' => Some (x' :: r')
-                             | _, _ => None
-                             end
-                 end) l
-              |> option_map CList
-          | _ => None
-          end
-      | TInput fields =>
-          match v with
-          | CNil => Some CNil
-          | CMap kvs =>
-              if forallb (fun kv => existsb (fun f => Nat.eqb (if_name f) (fst kv)) fields) kvs then
-                (fix go (fs : list ifield) : option (list (nat * cv)) :=
-                   match fs with
-                   | [] => Some []
-                   | f :: r =>
-                       match go r with
-                       | None => None
-                       | Some m =>
-                           match lookupc (if_name f) kvs with
-                           | None | Some CNil =>
-                               match if_dflt f with
-                               | Some d => Some ((if_name f, d) :: m)
-                               | None => if is_nn (if_type f) then None
-                                         else match lookupc (if_name f) kvs with
-                                              | Some CNil => Some ((if_name f, CNil) :: m)
-                                              | _ => Some m end
-                               end
-                           | Some ov => match coerce_in fuel' (if_type f) ov with
-                                        | Some w => Some ((if_name f, w) :: m)
-                                        | None => None
-                                        end
-                           end
-                       end
-                   end) fields
-                |> option_map CMap
-              else None
-          | _ => None
-          end
+   occurs is observable).  Input objects: an undeclared key is an error; every declared field is
+   looked at: absent or nil -> its default when there is one, an error when non-null, else left as it
+   is; present -> coerced. *)
+Fixpoint coerce_input (t : cty) (v : cv) {struct t} : option cv :=
+  match t with
+  | TScalar k => let (w, bad) := scalar_in k v in if bad then None else Some w
+  | TEnum vals =>
+      match v with
+      | CNil => Some CNil
+      | CSym e => if existsb (Nat.eqb e) vals then Some (CSym e) else None
+      | _ => None
       end
-  end
-where "x |> f" := (f x).
+  | TNonNullOf b => match v with CNil => None | _ => coerce_input b v end
+  | TListOf b =>
+      match v with
+      | CNil => Some CNil
+      | CList l => option_map CList (list_loop (coerce_input b) l)
+      | _ => None
+      end
+  | TInput fields =>
+      match v with
+      | CNil => Some CNil
+      | CMap kvs =>
+          if forallb (fun kv => declared fields (fst kv)) kvs
+          then option_map CMap (input_loop coerce_input kvs fields)
+          else None
+      | _ => None
+      end
+  end.
 
 (* CoerceOut of output leaf types (scalars, enums) and the wrappers the executor peels itself *)
 Definition leaf_out (t : cty) (v : cv) : cv * bool :=
@@ -239,76 +249,91 @@ Definition leaf_out (t : cty) (v : cv) : cv * bool :=
 (* ================================================================== specifications *)
 
 (* C04: the value handed to a resolver conforms to the declared type ... *)
-Fixpoint conforms (fuel : nat) (t : cty) (w : cv) {struct fuel} : bool :=
-  match fuel with
-  | O => false
-  | S fuel' =>
-      match t, w with
-      | TNonNullOf b, CNil => false
-      | TNonNullOf b, _ => conforms fuel' b w
-      | _, CNil => true
-      | TScalar SInt, CI KInt32 z => in32 z
-      | TScalar SInt64, CI KInt64 z => in64 z
-      | TScalar SInt64, CI KInt32 z => in32 z
-      | TScalar SFloat, CFl (FIn f) => f_w32 f && f_finite f
-      | TScalar SFloat, CFl (F32Of f) => f_finite f && f_fits32 f
-      | TScalar SFloat, CFl (F32OfInt _) => true
-      | TScalar SFloat64, CFl (FIn f) => negb (f_w32 f) && f_finite f
-      | TScalar SFloat64, CFl (F64Of f) => f_finite f
-      | TScalar SFloat64, CFl (F64OfInt _) => true
-      | TScalar SString, CStr _ | TScalar SCustom, CStr _ => true
-      | TScalar SBoolean, CBool _ => true
-      | TScalar SID, CStr _ | TScalar SID, CStrOfInt _ => true
-      | TScalar STime, CTime _ => true
-      | TEnum vals, CSym e => existsb (Nat.eqb e) vals
-      | TListOf b, CList l => forallb (conforms fuel' b) l
-      | TInput fields, CMap kvs =>
-          forallb (fun kv => existsb (fun f => Nat.eqb (if_name f) (fst kv)) fields) kvs &&
-          forallb (fun f => match lookupc (if_name f) kvs with
-                            | Some w' => (match if_dflt f with Some d => true | None => true end) &&
-                                         (conforms fuel' (if_type f) w' || match if_dflt f with Some _ => true | None => false end)
-                            | None => negb (is_nn (if_type f)) && match if_dflt f with Some _ => false | None => true end
-                            end) fields
-      | _, _ => false
+Definition scalar_conforms (k : skind) (w : cv) : bool :=
+  match k, w with
+  | _, CNil => true
+  | SInt, CI KInt32 z => in32 z
+  | SInt64, CI KInt64 _ | SInt64, CI KInt32 _ => true
+  | SFloat, CFl (FIn f) => f_w32 f && f_finite f
+  | SFloat, CFl (F32Of f) => f_finite f && f_fits32 f
+  | SFloat, CFl (F32OfInt _) => true
+  | SFloat64, CFl (FIn f) => negb (f_w32 f) && f_finite f
+  | SFloat64, CFl (F64Of f) => f_finite f
+  | SFloat64, CFl (F64OfInt _) => true
+  | SString, CStr _ | SCustom, CStr _ => true
+  | SBoolean, CBool _ => true
+  | SID, CStr _ | SID, CStrOfInt _ => true
+  | STime, CTime _ => true
+  | _, _ => false
+  end.
+
+Fixpoint conforms (t : cty) (w : cv) {struct t} : bool :=
+  match t with
+  | TNonNullOf b => match w with CNil => false | _ => conforms b w end
+  | TScalar k => scalar_conforms k w
+  | TEnum vals => match w with CNil => true | CSym e => existsb (Nat.eqb e) vals | _ => false end
+  | TListOf b => match w with CNil => true | CList l => forallb (conforms b) l | _ => false end
+  | TInput fields =>
+      match w with
+      | CNil => true
+      | CMap kvs =>
+          (* only declared fields; every declared field that is present conforms (or is its declared
+             default); a field that is absent is neither required nor defaulted *)
+          forallb (fun kv => declared fields (fst kv)) kvs &&
+          (fix go (fs : list (nat * (cty * option cv))) : bool :=
+             match fs with
+             | [] => true
+             | f :: r =>
+                 match lookupc (fst f) kvs with
+                 | Some w' => conforms (fst (snd f)) w' || match snd (snd f) with Some _ => true | None => false end
+                 | None => negb (is_nn (fst (snd f))) && match snd (snd f) with Some _ => false | None => true end
+                 end && go r
+             end) fields
+      | _ => false
       end
   end.
 
 (* ... and denotes the value the client wrote (v: what the parser / JSON decoder produced) *)
-Fixpoint denotes (fuel : nat) (v w : cv) {struct fuel} : bool :=
-  match fuel with
-  | O => false
-  | S fuel' =>
-      match v, w with
-      | CNil, CNil => true
-      | CI _ z, CI _ z' => z =? z'
-      | CFl (FIn f), CI _ z' => f_integral f && (f_trunc f =? z')
-      | CFl (FIn f), CFl (FIn f') => f_id f =? f_id f'
-      | CFl (FIn f), CFl (F32Of f') | CFl (FIn f), CFl (F64Of f') => f_id f =? f_id f'
-      | CI _ z, CFl (F32OfInt z') | CI _ z, CFl (F64OfInt z') => z =? z'
-      | CStr s, CStr s' => s_id s =? s_id s'
-      | CStr s, CI _ z' => match s_int s with Some z => z =? z' | None => false end
-      | CStr s, CFl (FIn f') => match s_flt s with Some f => f_id f =? f_id f' | None => false end
-      | CStr s, CTime (TParsed t') => match s_time s with Some t => t =? t' | None => false end
-      | CI _ z, CStrOfInt z' => z =? z'
-      | CI _ z, CTime (TOfSecs z') => z =? z'
-      | CBool b, CBool b' => Bool.eqb b b'
-      | CSym e, CSym e' => Nat.eqb e e'
-      | CTime t, CTime t' => match t, t' with TIn a, TIn b => a =? b | TOfSecs a, TOfSecs b => a =? b | TParsed a, TParsed b => a =? b | _, _ => false end
-      | CList l, CList l' =>
-          (fix go (a b : list cv) : bool :=
-             match a, b with
-             | [], [] => true
-             | x :: r, y :: r' => denotes fuel' x y && go r r'
-             | _, _ => false
-             end) l l'
-      | CMap kvs, CMap kvs' =>
-          (* every supplied non-nil entry is kept with the same meaning; the rest of kvs' are defaults *)
-          forallb (fun kv => match snd kv with
-                             | CNil => true
-                             | x => match lookupc (fst kv) kvs' with Some y => denotes fuel' x y | None => false end
-                             end) kvs
-      | _, _ => false
-      end
+Definition tval_eqb (t t' : tval) : bool :=
+  match t, t' with
+  | TIn a, TIn b | TOfSecs a, TOfSecs b | TParsed a, TParsed b | TOfFlt a, TOfFlt b => a =? b
+  | _, _ => false
+  end.
+
+Fixpoint denotes (v w : cv) {struct v} : bool :=
+  match v, w with
+  | CNil, CNil => true
+  | CI _ z, CI _ z' => z =? z'
+  | CFl (FIn f), CI _ z' => f_integral f && (f_trunc f =? z')
+  | CFl (FIn f), CFl (FIn f') | CFl (FIn f), CFl (F32Of f') | CFl (FIn f), CFl (F64Of f') => f_id f =? f_id f'
+  | CFl (FIn f), CTime (TOfFlt id) => f_id f =? id
+  | CI _ z, CFl (F32OfInt z') | CI _ z, CFl (F64OfInt z') => z =? z'
+  | CStr s, CStr s' => s_id s =? s_id s'
+  | CStr s, CI _ z' => match s_int s with Some z => z =? z' | None => false end
+  | CStr s, CFl (FIn f') => match s_flt s with Some f => f_id f =? f_id f' | None => false end
+  | CStr s, CTime (TParsed t') => match s_time s with Some t => t =? t' | None => false end
+  | CI _ z, CStrOfInt z' => z =? z'
+  | CI _ z, CTime (TOfSecs z') => z =? z'
+  | CBool b, CBool b' => Bool.eqb b b'
+  | CSym e, CSym e' => Nat.eqb e e'
+  | CTime t, CTime t' => tval_eqb t t'
+  | CList l, CList l' =>
+      (fix go (a b : list cv) : bool :=
+         match a, b with
+         | [], [] => true
+         | x :: r, y :: r' => denotes x y && go r r'
+         | _, _ => false
+         end) l l'
+  | CMap kvs, CMap kvs' =>
+      (* every supplied non-nil entry is kept with the same meaning (the other entries of kvs' are defaults) *)
+      (fix go (a : list (nat * cv)) : bool :=
+         match a with
+         | [] => true
+         | kv :: r =>
+             (if is_cnil (snd kv) then true
+              else match lookupc (fst kv) kvs' with Some y => denotes (snd kv) y | None => false end) && go r
+         end) kvs
+  | _, _ => false
   end.
 
 (* C05: the JSON shape of a leaf of declared type t *)
@@ -316,7 +341,7 @@ Definition has_shape (t : cty) (r : cv) : bool :=
   match t, r with
   | _, CNil => true
   | TScalar SInt, CI KInt32 z => in32 z
-  | TScalar SInt64, CI KInt64 z => in64 z
+  | TScalar SInt64, CI KInt64 _ => true
   | TScalar SFloat, CFl (FIn f) => f_w32 f && f_finite f
   | TScalar SFloat, CFl (F32Of f) => f_finite f && f_fits32 f
   | TScalar SFloat, CFl (F32OfInt _) => true
@@ -330,4 +355,17 @@ Definition has_shape (t : cty) (r : cv) : bool :=
   | TScalar STime, CTimeText _ => true
   | TEnum vals, CSymName e => existsb (Nat.eqb e) vals
   | _, _ => false
+  end.
+
+(* C05, second half: the leaf delivered is the resolver's value, not another number *)
+Definition out_faithful (v r : cv) : bool :=
+  match v, r with
+  | CI _ z, CI _ z' | CI _ z, CStrOfInt z' | CI _ z, CFl (F32OfInt z') | CI _ z, CFl (F64OfInt z') => z =? z'
+  | CFl (FIn f), CI _ z' => f_trunc f =? z'          (* Int / Int64 truncate floats (pinned by the tests) *)
+  | CStr s, CI _ z' => match s_int s with Some z => z =? z' | None => false end
+  | CFl (FIn f), CFl (FIn f') | CFl (FIn f), CFl (F32Of f') | CFl (FIn f), CFl (F64Of f') => f_id f =? f_id f'
+  | CFl (FIn f), CStrOfFlt f' => f_id f =? f_id f'
+  | CStr s, CStr s' => s_id s =? s_id s'
+  | CBool b, CBool b' | CBool b, CStrOfBool b' => Bool.eqb b b'
+  | _, _ => true
   end.
